@@ -307,9 +307,12 @@ class GoDriver:
         return out
 
 
-def run_real_binary(binary, argv, files, env_extra=None, tz='UTC', stdout_to=None, timeout=20, home_config=None):
+def run_real_binary(binary, argv, files, env_extra=None, tz='UTC', stdout_to=None, timeout=20, home_config=None, stable_dir=False):
     """run the untagged binary as a sub-process in a scratch directory with the given files"""
-    base = os.path.join(scratch_root(), 'real-%07d-%09d' % (os.getpid(), int(time.time() * 1e6) % 10**9))
+    # stable_dir: the same scratch path on every call of this process ($HOME is an input of the program: `gen` prints it)
+    base = os.path.join(scratch_root(), 'real-%07d-%09d' % (os.getpid(), 0 if stable_dir else int(time.time() * 1e6) % 10**9))
+    if stable_dir:
+        shutil.rmtree(base, ignore_errors=True)
     binary = staged(binary)
     home = os.path.join(base, 'home')
     work = os.path.join(base, 'work')
